@@ -156,6 +156,8 @@ type stores struct {
 }
 
 type sys struct {
+	// resend delivers the network message of the last event once more, unchanged
+	resend func() string
 	// cancelAt > 0: the next handler call's context is cancelled at that kernel round-trip point (CANCEL event)
 	cancelAt int
 	// destination views of VotingView/CommittingView polls, reused across polls
